@@ -257,7 +257,7 @@ impl C19 {
             let r = rng.usize_below(total);
             let op = if r < w_io {
                 if rng.chance(0.55) {
-                    Op::Output { m: rng.usize_below(8), path: rng.usize_below(3), prec: *rng.pick(&[0usize, 1, 2, 3, 6, 9, 10, 12, 15, 17]), faults: gen_faults(rng, mode, true) }
+                    Op::Output { m: rng.usize_below(8), path: rng.usize_below(3), prec: *rng.pick(&[0usize, 1, 2, 3, 6, 9, 10, 12, 15, 17, 17, 20, 30]), faults: gen_faults(rng, mode, true) }
                 } else {
                     Op::Read {
                         into: if rng.chance(0.5) { Some(rng.usize_below(8)) } else { None },
